@@ -24,6 +24,14 @@ is observed and judged.  User classes may derive from each other and may be supp
 Model side: `navh` — the class table after the recorded history of constructions (Obj/ClassTbl.lean)
 applied to the plain Python objects (instance dictionaries, no meta data).
 
+Multi-typed containment attributes (objgen.multi_type, 40 % of the cases): one attribute assigned from
+several rules / base types / match rules — `(k a=X | k a=Y | k a=INT)`, `(…)?`, `(…)*`, `k a=X k a=Y`, several
+list assignments one after the other or as alternatives.  textX gives such an attribute the generic meta-class
+OBJECT: what the meta-model declares about the attribute says nothing about the classes of the objects it
+holds.  Such models are asked `get_children_of_type` for every class that occurs (from the root) and for more
+(type, start) pairs; sessions also get variants in which a rule is contained nowhere / an attribute holds
+another rule (what can occur below the objects of a shared user class differs between the versions).
+
 Oracle: decided from the property statement on the *expected* object tree of the
 derivation (no model, no textX metadata).
 """
@@ -124,7 +132,20 @@ def gen_queries(rng, gram, exp, small=False):
     return qs
 
 
-def more_oftype(rng, gram, exp):
+def step_queries(rng, gram, exp, small=False):
+    """calls for the model of an earlier step of a session: the few random ones plus a type-directed search from the
+    root for up to 3 classes (side stream: the random ones are what they were) — whatever a navigation call derives
+    from the class objects and keeps (attribute lists, reachable types, …) is then derived in the earlier step, for
+    the grammar of that step"""
+    qs = gen_queries(rng, gram, exp, small)
+    side = type(rng)(f"{rng.s}:stepoftype")
+    classes = sorted({o["cls"] for o in exp})
+    for typ in side.shuffle(classes)[:3]:
+        qs.append(["oftype", 0, side.chance(0.3), typ, side.chance(0.5), {"k": "all"}])
+    return qs
+
+
+def more_oftype(rng, gram, exp, every=False):
     """more get_children_of_type calls: the type-directed search is the one navigation call that may consult the
     meta-model's *type* information (which classes can occur below an attribute), so it is asked for several types
     per model, from the root and from inner objects.  Models of grammars with multi-typed attributes — where the
@@ -135,7 +156,7 @@ def more_oftype(rng, gram, exp):
     rule_names = [r["name"] for r in gram["rules"] if r["kind"] != "match"]
     multi = any(e["k"] == "mcont" for r in gram["rules"] if r["kind"] == "common" for e in r["elems"])
     qs = []
-    if multi:
+    if multi or every:
         for typ in rng.shuffle(classes)[:6]:
             fol = {"k": "all"} if rng.chance(0.8) else spec_gen(rng, exp, classes)
             qs.append(["oftype", 0, rng.chance(0.5), typ, rng.chance(0.5), fol])
@@ -176,11 +197,13 @@ class Prop(Check):
     QUICK_CASES = 300
     THOROUGH_CASES = 6000
     PROCS_THOROUGH = 4
-    RULE = ("random grammar (2-6 common rules, abstract and match rules, recursion, references, user classes incl. "
+    RULE = ("random grammar (2-6 common rules, abstract and match rules, recursion, references, multi-typed containment "
+            "attributes — one attribute assigned from several rules / base types in alternatives, sequences or several "
+            "lists (meta-class OBJECT), 40 % of the cases, then get_children_of_type for every class present —, user classes incl. "
             "falsy / container-like / iterable / unhashable ones, deriving from each other, given as list or callable) "
             "+ derived model + 6-14 navigation calls; 40 % of the cases are sessions: 1-3 earlier meta-models (variants "
-            "of the grammar with other containment attributes, independent grammars with the same rule names, the same "
-            "grammar) sharing the user class objects or not, earlier models of the same meta-model, deferred calls on "
+            "of the grammar with other containment attributes / other rules held by an attribute / a rule contained "
+            "nowhere, independent grammars with the same rule names, the same grammar) sharing the user class objects or not, earlier models of the same meta-model, deferred calls on "
             "older models, released models, each step with its own calls and judged; non-trivial = model with >= 4 contained objects, nesting depth >= 2, at "
             "least one resolved reference to an object, and a get_children call whose result is a non-empty proper "
             "subset of the objects below its root")
@@ -230,7 +253,6 @@ class Prop(Check):
             layout = PLAIN if r.chance(0.7) else G.gen_layout(r, gram, len([1 for x in G.tokens(gram, tree) if x[0] == "tok"]))
             case = {"gram": gram, "tree": tree, "layout": layout, "file": r.chance(0.15),
                     "queries": gen_queries(r, gram, exp)}
-            case["queries"] += more_oftype(side, gram, exp)
             # sessions (harness/objhist.py); every choice from a fork of its own, so the single-model part of
             # the stream is what it was before sessions existed
             h = r.fork("hist")
@@ -242,9 +264,10 @@ class Prop(Check):
             if h.chance(0.25) and any(ru.get("user") for ru in gram["rules"]):
                 case["provider"] = True
             if with_hist:
-                hist, extra = H.gen_history(h, gram, tree, gen_queries)
+                hist, extra = H.gen_history(h, gram, tree, step_queries)
                 case["history"] = hist
                 case.update(extra)
+            case["queries"] += more_oftype(side, gram, exp, every=with_hist)
             yield case
 
     # ------------------------------------------------------------------ implementation
